@@ -28,11 +28,23 @@ def r10_1(run):
         if isinstance(n, ast.Assign) and isinstance(n.value, ast.Call) and "np.floating" in norm(n.value) and assigned_name(n):
             isf = assigned_name(n)
     if isf is None:
-        raise AnalysisError(f"{fi.short}: cannot find the float-dtype test local")
+        # the fact is tested in place (`if not issubclass(dtype, np.floating) and ...`): the expression text is the key
+        for n in own_nodes(fi.node):
+            if isinstance(n, ast.Call) and "np.floating" in norm(n) and (dotted(n.func) or "") in ("issubclass", "np.issubdtype", "numpy.issubdtype"):
+                isf = norm(n)
+                break
+    if isf is None:
+        raise AnalysisError(f"{fi.short}: cannot find the float-dtype test")
     real_test = None
     for n in own_nodes(fi.node):
         if isinstance(n, ast.If) and "CONSTANT_ONLY_DTYPES" in norm(n.test):
-            real_test = norm(n.test.operand) if isinstance(n.test, ast.UnaryOp) else norm(n.test)
+            # the atomic fact `issubclass(dtype, CONSTANT_ONLY_DTYPES)`: whatever else the test mentions stays unknown in the scenarios below, so
+            # an added escape hatch (`not already_vetted and ...`) leaves the store reachable and is reported
+            for c_ in ast.walk(n.test):
+                if isinstance(c_, ast.Call) and "CONSTANT_ONLY_DTYPES" in norm(c_) and (dotted(c_.func) or "") in ("issubclass", "isinstance", "np.issubdtype"):
+                    real_test = norm(c_)
+            if real_test is None:
+                real_test = norm(n.test.operand) if isinstance(n.test, ast.UnaryOp) else norm(n.test)
     if real_test is None:
         raise AnalysisError(f"{fi.short}: integer/bool dtype test not found")
     base = switch_assumptions(fi, track=True, extra={"NP_IS_V2": True, isf: False})
@@ -306,6 +318,17 @@ def r10_5(run):
     run.ob("R10.5", loc(fi, keep[0] if keep else fi.node), fi.short, "the flag re-imposed on the in-place result is the memory owner's (the private copy of the base)", root_ok,
            "flag read from the tensor produced by graph.base.tensor.copy()" if root_ok else
            "flag is taken from another tensor (e.g. the view being written): an update through a non-constant view flips the owner's flag")
+    # the internal follow-up operations that splice the updated memory back into the graph (UnView, ApplyMask) infer their flag from their
+    # operands -- the mutated tensor whose flag was just re-imposed and a placeholder; the caller's constant= belongs to the user's operation only
+    for s_ in opcontract.op_sites(run):
+        if s_.fi.qualname != fi.qualname or s_.op_cls is None or not s_.op_cls.qualname.startswith("mygrad._utils.duplicating_graph."):
+            continue
+        k_ = kw(s_.call, "constant")
+        okk = k_ is None or (isinstance(k_, ast.Constant) and k_.value is None)
+        run.ob("R10.5", loc(fi, s_.call), fi.short, f"internal {s_.op_cls.name} op takes no constant= from the caller", okk,
+               "flag inferred from its operands" if okk else
+               f"`constant={norm(k_)}` is handed to the internal {s_.op_cls.name} op: its result is mirrored into the target, so an out=/where= update with an "
+               f"explicit constant= flips the target's own flag (and can cut the gradient path through the update)")
     run.ob("R10.5", loc(fi, keep[0] if keep else fi.node), fi.short, "in-place result inherits the target's own constant flag before being mirrored", ok,
            f"_constant propagated {chain} and dominates mirror_tensor" if ok else
            "an in-place update can change the constant flag of its target")
@@ -402,7 +425,46 @@ def r10_9(run):
     run.count("tensor re-wrapping calls without constant=", n)
 
 
+def r10_10(run):
+    """the constant flag of a result is inferred in one place, Tensor._op.  A function that routes to an operation (it contains an _op /
+    _in_place_op call site) must not *also* have a path on which it builds its result tensor itself -- Tensor(np.<kernel>(...), constant=constant):
+    with `constant` unspecified that result is non-constant for float data although every input is constant (and no graph is recorded)."""
+    fx = facts(run)
+    by_fn = {}
+    for s_ in opcontract.op_sites(run):
+        by_fn.setdefault(s_.fi.qualname, (s_.fi, []))[1].append(s_)
+    n = 0
+    for q, (fi, ss) in sorted(by_fn.items()):
+        if q == OP or q.endswith("._in_place_op") or q.endswith("._replay_op"):
+            continue
+        n += 1
+        cls_name = fi.node.args.args[0].arg if fi.node.args.args and fi.node.args.args[0].arg in ("cls",) else None
+        bad = []
+        for r in own_nodes(fi.node):
+            if not (isinstance(r, ast.Return) and r.value is not None):
+                continue
+            vals = [r.value]
+            if isinstance(r.value, ast.Name):
+                vals = [a_.value for a_ in own_nodes(fi.node) if isinstance(a_, ast.Assign) and assigned_name(a_) == r.value.id]
+            for v in vals:
+                for c in ([v] if isinstance(v, ast.Call) else []):
+                    tgt = fx.resolve_call(fi, c)
+                    qn = getattr(tgt, "qualname", "")
+                    if qn in (TENSOR, f"{TENSOR}.__init__", "mygrad.tensor_base.tensor", "mygrad.tensor_base.astensor") or (
+                            cls_name and isinstance(c.func, ast.Name) and c.func.id == cls_name):
+                        # re-wrapping an operand the caller passed (astensor(x, constant=...)) is R10.9's business; here: a fresh result
+                        if c.args and isinstance(c.args[0], ast.Call):
+                            bad.append(c)
+        run.ob("R10.10", loc(fi, bad[0] if bad else fi.node), fi.short, "results are produced by the operation machinery on every path", not bad,
+               f"{len(ss)} operation site(s); no return builds a tensor from a kernel result" if not bad else
+               f"`return {norm(bad[0])[:60]}` bypasses Tensor._op: the result's constant flag is not inferred from the inputs (an all-constant call "
+               f"returns a non-constant tensor) and nothing is recorded")
+    run.count("functions routing to operations checked for by-passing returns", n)
+
+
 def check(run):
+    run.rule("R10.10", "a function that routes to an operation builds no result tensor by itself on any path", floor=60)
+    run.do(r10_10)
     run.rule("R10.1", "Tensor.__init__ (tracking on): dtype gate raises before `_constant` is stored; default is `not is_float`; explicit flag kept", floor=6)
     run.rule("R10.2", "every value store to a tensor's _grad is on the non-constant edge of a `.constant` test (or is the seed after the constant early-exit)", floor=5)
     run.rule("R10.3", "Tensor._op: `constant` is only inferred when it is None; the explicit flag reaches the output tensor", floor=5)
